@@ -1,6 +1,6 @@
 @unit cw20
 @shim core.rs cw_utils.rs std_more.rs cw2.rs std_adapters.rs
-@properties C01 C02 C13 C19
+@properties C01 C02 C13 C19 C20
 
 // ===================================================================== extracted data types
 @struct packages/cw20/src/coin.rs Cw20Coin
